@@ -243,7 +243,14 @@ fn one_run(report: &mut Report, seed: u64, rid: u64, dir: &str, steps: usize) ->
                 }
             }
             if rng.chance(1, 40) {
-                // clean restart: the recovered store must satisfy the same invariants
+                // clean restart: the recovered store must satisfy the same invariants. Only after a
+                // successful flush: on a fragmented, nearly full device the final flush of a drop may
+                // legitimately be unable to place a pending record.
+                match run.flush_and_check("before restart") {
+                    Ok(true) => {}
+                    Ok(false) => continue,
+                    Err((s, m)) => return fail(&run, s, m),
+                }
                 run.log.push("drop + reopen".into());
                 run.pause.store(true, Ordering::SeqCst);
                 std::thread::sleep(std::time::Duration::from_millis(3));
